@@ -95,3 +95,88 @@ def exponent(fn, e, selfname="arg1"):
                 return None
             return a * (2 ** n[1])
     return None
+
+
+# ---------------------------------------------------------------- the same abstraction over ssa terms
+def _ssa_strip(t):
+    while isinstance(t, tuple) and len(t) == 2 and t[0] == "refof":
+        t = t[1]
+    return t
+
+
+def _ssa_const(t):
+    t = _ssa_strip(t)
+    if isinstance(t, tuple) and t and t[0] == "kconst" and isinstance(t[3], tuple):
+        d = dict(t[3]) if t[3] and isinstance(t[3][0], tuple) and len(t[3][0]) == 2 and isinstance(t[3][0][0], str) else None
+        if d and "0" in d:
+            limbs = d["0"]
+            return curve.fe64_value(limbs) if len(limbs) == 5 else curve.fe32_value(limbs)
+    from . import ssa as _ssa
+    if isinstance(t, _ssa.Agg):
+        inner = t.get("0") if "0" in t else t.get(0)
+        if isinstance(inner, _ssa.Agg) and inner.get("_n") in (5, 10) and all(_ssa.is_c(inner.get(i)) for i in range(inner["_n"])):
+            limbs = [inner[i][1] for i in range(inner["_n"])]
+            return curve.fe64_value(limbs) if len(limbs) == 5 else curve.fe32_value(limbs)
+    return None
+
+
+def ssa_leaf_name(t):
+    """canonical name of an input location: arg1.x / arg2.t2d / arg1"""
+    t = _ssa_strip(t)
+    if isinstance(t, tuple) and t:
+        if t[0] == "ref" and t[1][0] == "ext":
+            return ".".join([t[1][1]] + [str(p[1]) for p in t[2]])
+        if t[0] == "load" and isinstance(t[1], str):
+            return t[1]
+        if t[0] == "in":
+            return t[1]
+        if t[0] == "elem":
+            b = ssa_leaf_name(t[1])
+            return None if b is None else "%s.%s" % (b, t[2])
+    return None
+
+
+def to_poly_ssa(res, t, leaf):
+    """Polynomial of a field expression given as an ssa term of evaluation result `res` (reassigned locals, values moved
+    through temporaries and private helpers are already resolved by the evaluator); leaf(name) -> variable name or None"""
+    t = _ssa_strip(t)
+    if isinstance(t, tuple) and t and t[0] == "call":
+        nm, args, uid = t[1], list(t[2]), t[3]
+        av = res.argvals.get(uid) or [None] * len(args)
+        vals = [(av[i] if i < len(av) and av[i] is not None else args[i]) for i in range(len(args))]
+
+        def sub(i):
+            return to_poly_ssa(res, vals[i], leaf)
+        if CLONE.search(nm):
+            return sub(0)
+        if ADD.search(nm):
+            a, b = sub(0), sub(1)
+            return None if a is None or b is None else a + b
+        if SUB.search(nm):
+            a, b = sub(0), sub(1)
+            return None if a is None or b is None else a - b
+        if MUL.search(nm):
+            a, b = sub(0), sub(1)
+            return None if a is None or b is None else a * b
+        if NEG.search(nm):
+            a = sub(0)
+            return None if a is None else -a
+        if SQUARE.search(nm):
+            a = sub(0)
+            return None if a is None else a * a
+        if SQ2.search(nm):
+            a = sub(0)
+            return None if a is None else (a * a) * 2
+        m = re.search(r"fe::fe\d\d::Fe::mul_small(?:::<S0>)?(?:#(\d+))?$", nm)
+        if m and m.group(1):
+            a = sub(0)
+            return None if a is None else a * int(m.group(1))
+        return None
+    c = _ssa_const(t)
+    if c is not None:
+        return Poly.const(c if c < (1 << 200) else c - curve.P)
+    nm = ssa_leaf_name(t)
+    if nm is None:
+        return None
+    v = leaf(nm, t)
+    return None if v is None else Poly.var(v)
